@@ -163,15 +163,17 @@ def correspond(cfg, lines, log, harness_args=(), selfcheck=False):
         verdicts = ["ok"] + [("ok" if o.startswith("EQ") else ("FAIL the harness does not know this C-interface operation (generator/harness mismatch): " + o if o.startswith("UNSUPPORTED") else "FAIL C function and C++ operation disagree: " + o)) for o in outs[1:k]]
     else:
         verdicts = run_judge(lines[:k - 1], outs[:k]) if k >= 1 else []
-    fails = []; ok = 0; skipped = 0
+    fails = []; ok = 0; skipped = 0; skips = []
     for i in range(1, k):
         v = verdicts[i]
         if v == "ok": ok += 1
-        elif v.startswith("skip"): skipped += 1
+        elif v.startswith("skip"):
+            skipped += 1; skips.append((lines[i - 1][:160], v))
         else: fails.append((lines[i - 1], outs[i], v))
     if crash and k - 1 < len(lines):
         fails.append((lines[k - 1], "<no output: process died>", "FAIL harness crashed on or before this line"))
     log("correspond[%s]: %d ops, %d ok, %d skipped, %d FAIL%s (%.1fs)" % (cfg, k - 1, ok, skipped, len(fails), ", CRASH" if crash else "", time.time() - t0))
+    for l, v in skips[:5]: log("   skipped: %s  <- %s" % (v, l))
     return {"cfg": cfg, "n": k - 1, "ok": ok, "skipped": skipped, "fails": fails, "crash": crash, "outs": outs[1:k], "lines": lines[:k - 1]}
 
 # --------------------------------------------------------------------------- known findings
